@@ -158,3 +158,6 @@ def classify(line, what):
     if what.startswith("KNOWN:"):
         return what[6:]
     return "c10-" + ("rotation" if "consecutive" in what else "delivery")
+
+
+norm_model = norm_impl
